@@ -15,6 +15,7 @@ from calcb import fs, fr, fsl, frl, rq, rpoly, X, poly, pderiv, subst, at, tol_i
 from props.engineb import run_and_report, replay_generic, short
 
 LEVEL = "exploration"
+JOBS = 10          # coqc processes run in parallel (frugal: other checks share the machine)
 
 ASSUMPTIONS = [
     "Closed forms trusted for the `interval` certificates (each is a textbook antiderivative; the generator also "
@@ -390,8 +391,8 @@ def plan(rng, tier_):
     q = tier_ == "quick"
     precs = [30, 53, 100, 200] if q else [30, 53, 100, 200, 500]
     jobs = []
-    n_base = 26 if q else 150
-    rint_left = [9 if q else 40]
+    n_base = 22 if q else 150
+    rint_left = [7 if q else 40]
     for i in range(n_base):
         u = rng.random()
         if u < 0.45: spec = g_pet(rng)
@@ -435,6 +436,11 @@ def plan(rng, tier_):
             spec = g_multi(rng, 3)
         jobs.append((spec, "plain", rng.choice(["gauss-legendre", "quadgl"]), 30 if q else rng.choice([30, 53]), False))
     rng.shuffle(jobs)
+    # node caches: the lowest-precision calls of both rules go first (a cache entry wrongly shared between precisions is
+    # then filled with low-precision nodes before the high-precision calls), the rest stays in random order
+    lowp = min(p for (_, _, _, p, _) in jobs)
+    head = [j for j in jobs if j[3] == lowp and "dims" not in j[0]][:10]
+    jobs = head + [j for j in jobs if not any(j is h for h in head)]
     # node caches: re-run a sample of the calls later, i.e. after unrelated intervals / precisions / rules
     k = 12 if q else 80
     reruns = [(s, v + "+rerun", m, p, False) for (s, v, m, p, w) in rng.sample(jobs, min(k, len(jobs))) if "dims" not in s or p <= 30]
@@ -514,8 +520,8 @@ def run(rep, tier_, rng):
     for c in calls.values():
         regimes[c["regime"]] = regimes.get(c["regime"], 0) + 1
     params = {"sentence_timeout": 60 if q else 150, "single_timeout": 70 if q else 300}
-    budget = (138 if q else 1150) - tgen
-    run_and_report(rep, insts, calls, tag="C26_%s" % tier_, params=params, budget=max(30, budget),
+    budget = (118 if q else 1150) - tgen
+    run_and_report(rep, insts, calls, tag="C26_%s" % tier_, params=params, budget=max(30, budget), jobs=JOBS,
                    rule="each evaluation = one call of quad/quadts/quadgl of the current /repo code on a generated integrand "
                         "(P(x)e^(ax){1,sin bx,cos bx}; rational functions with poles at distance >= 1; Gaussians on (half-)infinite "
                         "intervals; P(x)e^(-ax){1,sin,cos} on half-lines; 2-d/3-d products and sums) with rational parameters, at "
